@@ -196,6 +196,20 @@ Check C17_compact_normal_form :
   (forall toks c rest, parse_range_list toks = Ok (c, rest) -> is_compact c = true).
 Print Assumptions C17_compact_normal_form.
 
+(* RangeList::compact mirrored index by index (vector, indices a and b, `s.end() + 1` overflow, the two
+   `expect("RangeList::compact")`) computes exactly the list version the parsers of the model use: neither `expect` can
+   fire and the loop never runs out of fuel; under wf_rl there is no overflow panic either *)
+Theorem C17_compact_loop_faithful :
+  (forall l, compact_idx l = match compact l with Some c => CDone c | None => CPanicOverflow end) /\
+  (forall l, wf_rl l = true -> compact_idx l = CDone (norm_rl l)).
+Proof.
+  split; [exact compact_idx_faithful|]. intros l H. rewrite compact_idx_faithful, (compact_norm_rl l H). reflexivity.
+Qed.
+Check C17_compact_loop_faithful :
+  (forall l, compact_idx l = match compact l with Some c => CDone c | None => CPanicOverflow end) /\
+  (forall l, wf_rl l = true -> compact_idx l = CDone (norm_rl l)).
+Print Assumptions C17_compact_loop_faithful.
+
 (* the loops of the model run on fuel (token count + 1): the out-of-fuel error is unreachable, so every model outcome is an
    outcome of the mirrored code *)
 Theorem C17_no_fuel_error : (forall unpack toks, parse_pcm unpack toks <> Err EFuel) /\ (forall toks, parse_repl toks <> Err EFuel).
